@@ -159,11 +159,19 @@ impl Report {
         let mut exit = 0;
         let mut n_known = 0u64;
         let mut n_new = 0u64;
+        let mut n_machinery = 0u64;
         let replay_dir = root.join("replays").join(&self.id);
         for (sig, (v, count)) in &self.violations {
             let k = known
                 .iter()
                 .find(|k| k.property == self.id && k.status == "open" && sig_matches(&k.signature, sig));
+            let is_machinery = sig.split(':').nth(1) == Some("machinery");
+            if is_machinery {
+                // a failure of the harness or its environment is never a verdict about the property
+                eprintln!("MACHINERY: {} {} ({} case(s)): {}", self.id, sig, count, v.what);
+                n_machinery += 1;
+                continue;
+            }
             if let Some(k) = k {
                 println!(
                     "KNOWN-FINDING: property={} {} [{}] ({} case(s) this run)",
@@ -230,6 +238,9 @@ impl Report {
             wall,
             path.display()
         );
+        if exit == 0 && n_machinery > 0 {
+            return 2;
+        }
         exit
     }
 }
